@@ -46,19 +46,27 @@ type Violation struct {
 }
 
 type Thread struct {
-	id      int
-	stack   []*frame
-	resume  chan struct{}
-	done    bool
-	state   string
-	wait    interface{}
-	fn      Value
-	args    []Value
-	site    ssa.Instruction
-	held    int
-	blocked func() bool
-	kill    bool
-	sleeps  int
+	id          int
+	stack       []*frame
+	resume      chan struct{}
+	done        bool
+	state       string
+	wait        interface{}
+	fn          Value
+	args        []Value
+	site        ssa.Instruction
+	held        int
+	blocked     func() bool
+	kill        bool
+	sleeps      int
+	quiesce     bool
+	sleeping    bool
+	wake        bool
+	freeWake    int
+	ownProgress int
+	opKey       interface{}
+	opWrite     bool
+	opKnown     bool
 }
 
 type Exec struct {
@@ -95,6 +103,10 @@ type Exec struct {
 	exitExpect    *int
 	allocLimit    int64
 	poolPuts      int
+	logPrints     int
+	schedTrace    []string
+	atomicDepth   int
+	atomicVals    map[*Value]Value
 	poolGets      int
 	trackRelease  bool
 	atExit        Value
@@ -155,6 +167,8 @@ type HarnessRun struct {
 	Obligations int
 	Discharged  int
 	PathLimit   bool
+	Pruned      int
+	Resets      int
 	MaxAllocReq int64
 	vioKeys     map[string]bool
 }
@@ -451,6 +465,9 @@ func (x *Exec) violate(kind, msg, pos string) {
 	x.h.vioKeys[key] = true
 	v := Violation{Harness: x.h.Name, Kind: kind, Msg: msg, Pos: pos, Replay: x.modelReplay(), Path: x.h.Paths}
 	v.Notes = append(v.Notes, x.notes...)
+	if len(x.schedTrace) > 0 {
+		v.Notes = append(v.Notes, "schedule: "+strings.Join(x.schedTrace, " "))
+	}
 	x.h.Violations = append(x.h.Violations, v)
 }
 
@@ -531,7 +548,7 @@ func (eng *Engine) RunHarness(fn *ssa.Function) *HarnessRun {
 	if dir := os.Getenv("GOSYM_QLOG"); dir != "" {
 		s.queryLog, _ = os.Create(dir + "/" + h.Name + ".smt2")
 	}
-	defer s.Close()
+	defer func() { s.Close() }()
 	x := &Exec{eng: eng, h: h, f: f, s: s, stdGlobals: map[*ssa.Global]*Value{}}
 	deadline := t0.Add(time.Duration(eng.cfg.HarnessTimeoutS) * time.Second)
 	for {
@@ -551,14 +568,35 @@ func (eng *Engine) RunHarness(fn *ssa.Function) *HarnessRun {
 		if !x.backtrack() {
 			break
 		}
+		if f.nextID > eng.cfg.ResetTerms {
+			// memory hygiene: drop all terms and the solver; the next re-execution rebuilds and
+			// re-asserts the trace prefix from scratch (deterministic re-execution makes this exact)
+			h.SolverSat, h.SolverUnsat, h.SolverUnk = h.SolverSat+s.nSat, h.SolverUnsat+s.nUnsat, h.SolverUnk+s.nUnknown
+			h.SolverWall += s.wall.Seconds()
+			s.Close()
+			f = NewTermFactory()
+			s, err = NewSolver(eng.cfg.Solver, f, eng.cfg.SolverTimeoutMs)
+			if err != nil {
+				h.Aborted["solver restart: "+err.Error()]++
+				break
+			}
+			x.f, x.s = f, s
+			x.stdGlobals = map[*ssa.Global]*Value{}
+			x.asserted = 0
+			x.model = nil
+			for i := range x.trace {
+				x.trace[i].lvlBefore = 0
+			}
+			h.Resets++
+		}
 		if h.Paths >= eng.cfg.MaxPaths || time.Now().After(deadline) {
 			h.PathLimit = true
 			h.Aborted[fmt.Sprintf("exploration budget exhausted after %d paths", h.Paths)]++
 			break
 		}
 	}
-	h.SolverSat, h.SolverUnsat, h.SolverUnk = s.nSat, s.nUnsat, s.nUnknown
-	h.SolverWall = s.wall.Seconds()
+	h.SolverSat, h.SolverUnsat, h.SolverUnk = h.SolverSat+s.nSat, h.SolverUnsat+s.nUnsat, h.SolverUnk+s.nUnknown
+	h.SolverWall += s.wall.Seconds()
 	h.SolverErrs = s.errs
 	if len(h.SolverErrs) > 5 {
 		h.SolverErrs = h.SolverErrs[:5]
@@ -587,6 +625,9 @@ func (x *Exec) runPath(fn *ssa.Function) {
 	x.exitExpect = nil
 	x.allocLimit = 0
 	x.poolPuts, x.poolGets = 0, 0
+	x.logPrints, x.atomicDepth = 0, 0
+	x.schedTrace = nil
+	x.atomicVals = map[*Value]Value{}
 	x.trackRelease = false
 	x.atExit = nil
 	x.threads = nil
@@ -606,6 +647,7 @@ func (x *Exec) runPath(fn *ssa.Function) {
 	func() {
 		defer func() {
 			r := recover()
+			x.killThreads()
 			if r == nil {
 				return
 			}
@@ -615,6 +657,9 @@ func (x *Exec) runPath(fn *ssa.Function) {
 			case pathEnd:
 				if r.why == "os.Exit" || r.why == "done" {
 					completed = true
+				}
+				if r.why == "sleep-set" {
+					x.h.Pruned++
 				}
 			case targetPanic:
 				// uncaught panic of the interpreted program
@@ -638,8 +683,11 @@ func (x *Exec) runPath(fn *ssa.Function) {
 			if e.Kind == "choice" {
 				cs = append(cs, fmt.Sprint(e.Value))
 			}
+			if e.Kind == "sched" {
+				cs = append(cs, fmt.Sprintf("T%d", e.Value))
+			}
 		}
-		fmt.Fprintf(f, "%s %s\n", x.h.Name, strings.Join(cs, ","))
+		fmt.Fprintf(f, "%s %s | %s\n", x.h.Name, strings.Join(cs, ","), strings.Join(x.schedTrace, " "))
 		f.Close()
 	}
 	if completed {
